@@ -123,5 +123,41 @@ PROPS["C13"] = {
     "legs": [rapid("life", "c13", "TestMiddleware", 3000, 50000, shards=(2, 12))],
 }
 
+WIRE_ASSUME = [
+    "the writer and reader are the real ones, built through the export shim; the DRPC transport is replaced by a fake stream that marshals and unmarshals every Envelope with the generated vtproto code",
+    "the receiving engine hosts synchronous recording Processers (SpawnProc); everything runs on one goroutine",
+]
+
+PROPS["C15"] = {
+    "id": "C15", "level": "exploration",
+    "rule": "generated cases of 1..3 batches of 1..24 messages over 5 targets, 9 senders (none, equal PIDs in distinct objects, PIDs that differ "
+            "only in the address/id split) and 4 registered message types, with unserialisable payloads (proto with invalid UTF-8, non-proto Go values) "
+            "at generated positions; each batch goes through streamWriter.Invoke, the marshalled envelope through streamReader.Receive; the deliveries must "
+            "equal the serialisable messages in order, each at its own target, proto.Equal payload of the same type, same sender (nil stays nil); nothing may "
+            "panic.  Non-trivial = one batch has >=2 targets, >=2 senders including none, and >=2 message types.  Distinct = canonical JSON.",
+    "technique": "round-trip property testing (rapid) of the real stream writer and reader over a marshalling fake stream",
+    "level_text": "Generated-input search with a round-trip oracle over the real encoder and decoder; deterministic and single-threaded. Sampling, not proof.",
+    "level_note": "trusts google.golang.org/protobuf (proto.Equal, Marshal) and the fake stream; batch formation by timing is replaced by generated batches",
+    "assumptions": WIRE_ASSUME + ["targets all live on the address the writer serves (one writer per address, as the router guarantees)", "senders are never the empty PID"],
+    "legs": [rapid("rt", "wire", "TestRoundTrip", 20000, 300000, shards=(2, 12))],
+}
+
+PROPS["C16"] = {
+    "id": "C16", "level": "exploration",
+    "rule": "generated envelopes (1..3 per stream; tables of 0..4 entries; indices valid, one past the end, negative, MaxInt32/MinInt32, arbitrary; type names "
+            "registered, unknown, empty; payloads valid, truncated, random), each pushed through MarshalVT/UnmarshalVT so that only wire-reachable values are used, "
+            "then streamReader.Receive; plus a complete enumeration of single-message envelopes over boundary indices; plus (thorough) native fuzzing of the byte string "
+            "given to Envelope.UnmarshalVT.  Receive must return without panicking; deliveries must be an ordered subsequence of the messages whose type and target index "
+            "are in range, whose type is registered and whose payload decodes, each at that target with that type, payload and sender; every envelope before the first one "
+            "holding an invalid message must be delivered completely.  Non-trivial = the stream holds >=1 invalid message (index out of range, unknown type, undecodable payload).",
+    "technique": "property-based testing (rapid) + complete boundary enumeration + native fuzzing of the decoder input, validity-predicate oracle over recorded deliveries",
+    "level_text": "Generated-input search over hostile envelopes with a validity predicate; boundary space enumerated completely; bytes fuzzed coverage-guided in the thorough tier.",
+    "level_note": "trusts the protobuf library to decide 'registered' and 'decodes'; the panic is observed on the caller's goroutine (in production it would be a drpc server goroutine without recover)",
+    "assumptions": WIRE_ASSUME + ["a message whose sender index is out of range may be dropped or delivered with any sender: the statement does not say"],
+    "legs": [rapid("gen", "wire", "TestHostileEnvelope", 20000, 300000, shards=(2, 12)),
+             plain("enum", "wire", "TestHostileEnum"),
+             fuzz("fuzz", "wire", "FuzzEnvelopeBytes", 90)],
+}
+
 # reasons for properties that are not claimed (kept current by hand)
 NA_REASONS = {}
